@@ -305,4 +305,23 @@ def r7(ctx):
 
 EXPLANATION = EXPLANATION + " (R7) every queued message or fragment of every size can be admitted into an empty datagram (shared capacity obligations C05.R1): one that cannot is never sent, and its callback never fires."
 
-RULES = [("C07.R1", r1), ("C07.R2", r2), ("C07.R3", r3), ("C07.R4", r4), ("C07.R5", r_enum), ("C07.R6", r6), ("C07.R7", r7)]
+
+def r_shared_r8(ctx):
+    """ack number and bitmap travel intact in the header, and every message keeps its number (shared C09.R1, C09.R2)"""
+    from . import c09 as _m
+    from .c02 import _Sub
+    for _f in ['r1', 'r2']:
+        getattr(_m, _f)(_Sub(ctx, "C07.R8"))
+
+
+def r_shared_r9(ctx):
+    """a pending datagram is resolved as acked exactly when the peer's receive window recorded it: header fill, decode geometry and duplicate cells (shared C08.R4, C08.R5)"""
+    from . import c08 as _m
+    from .c02 import _Sub
+    for _f in ['r4', 'r5']:
+        getattr(_m, _f)(_Sub(ctx, "C07.R9"))
+
+
+EXPLANATION = EXPLANATION + " (R8) ack number and bitmap travel intact in the header, and every message keeps its number (shared C09.R1, C09.R2). (R9) a pending datagram is resolved as acked exactly when the peer's receive window recorded it: header fill, decode geometry and duplicate cells (shared C08.R4, C08.R5)."
+
+RULES = [("C07.R1", r1), ("C07.R2", r2), ("C07.R3", r3), ("C07.R4", r4), ("C07.R5", r_enum), ("C07.R6", r6), ("C07.R7", r7), ("C07.R8", r_shared_r8), ("C07.R9", r_shared_r9)]
